@@ -22,7 +22,7 @@ META = {
                     "part of the executed code)"],
     "stubs": ["np.linspace on symbolic end points: start + i*(stop-start)/(n-1)",
               "floor division of a symbolic value: fresh integer k with k <= q < k+1 (forks on k)"],
-    "outside": ["more than 3 parameters", "vector-valued tables (dim > 1)"],
+    "outside": ["3 or more parameters and 2-parameter tables with more than 8 nodes (z3 left obligations undecided / did not return within 10 minutes)", "tables with more than two functions (dim > 2); two-function tables beyond 6 nodes"],
 }
 
 
@@ -31,7 +31,7 @@ def shards(tier, seed):
     if tier == "quick":
         grids = [[2], [3], [2, 2], [3, 2]]
     else:
-        grids = [[2], [3], [4], [2, 2], [3, 2], [3, 3], [4, 2], [2, 2, 2]]
+        grids = [[2], [3], [4], [5], [2, 2], [3, 2], [4, 2]]      # [3,3] and 3-d tables: undecided obligations / no result within 10 min
     for g in grids:
         out.append({"kind": "standard", "npt": g})
     for d in (1, 2):
@@ -123,7 +123,7 @@ def h_standard(ctx, npt, case_holder=None):
         want = [c for c, s in zip(coefs.tolist(), subsets) if s == (ax,)][0]
         ctx.check("gradient-exact-for-linear", lift(g[0, 0]) == lift(want), case)
     # several functions in one table (dim = 2): each row interpolates its own function
-    if d <= 2:
+    if d <= 2 and int(np.prod(npt)) <= 6:
         coefs2 = ctx.reals("cc", 2 ** d, -2, 2)
         f2, _ = _multilinear(coefs2.tolist(), d)
 
